@@ -119,4 +119,35 @@ func runFiles(r *vt.Run, t vt.TB, s fileSpec) {
 		}
 	}
 	r.Count("files:scans", scans)
+	// a leading part of the columns, in their order: the rows are as wide as
+	// the list asked for (what Scan and the shortcuts take their number of
+	// values from) and hold the values the full select gave
+	for p := 1; p < len(cols); p++ {
+		if (len(s.Rows)+p)%2 == 1 && p != 1 {
+			continue
+		}
+		ri := 0
+		var problem string
+		err := db.Select("t", func(row sqlittle.Row) {
+			if problem == "" && ri < len(got) {
+				if len(row) != p {
+					problem = fmt.Sprintf("row %d has %d values (%#v)", ri, len(row), row)
+				} else if fmt.Sprintf("%#v", []interface{}(row)) != fmt.Sprintf("%#v", []interface{}(got[ri][:p])) {
+					problem = fmt.Sprintf("row %d is %#v; the same columns of the full select are %#v", ri, row, got[ri][:p])
+				} else if strs := row.ScanStrings(); len(strs) != p {
+					problem = fmt.Sprintf("ScanStrings gives %d strings for row %d", len(strs), ri)
+				}
+			}
+			ri++
+		}, cols[:p]...)
+		if err != nil || ri != len(got) {
+			r.Violation(t, s, "files:prefix-select", "Select of the first %d columns %v: %d rows, error %v; the full select gave %d rows", p, cols[:p], ri, err, len(got))
+			return
+		}
+		if problem != "" {
+			r.Violation(t, s, "files:prefix-width", "Select of the first %d columns %v: %s", p, cols[:p], problem)
+			return
+		}
+		r.Count("files:leading-column-selects", 1)
+	}
 }
